@@ -220,12 +220,62 @@ def run(tier):
             else:
                 key = "query `%s'" % q
             vd.observe(key, {"query": q, "expected": e, "observed": r})
+    # 6. literals: every text of an integer in the four notations around the edges of the representable range
+    #    (2^63, 2^64, one more digit, many more digits), positive and negative, alone, under arithmetic and as the
+    #    number of ?N / !N: the number written, or a reported failure -- never another number
+    lcmds, lmeta = [], []
+    edges = set()
+    for c in (2**63, 2**64, 10**19, 10**20, 2 * 2**64, 16 * 2**64, 8 * 2**64, 10 * 2**64):
+        for d in range(-12, 13):
+            edges.add(c + d)
+    for k in (65, 66, 70, 96, 127, 128, 130):
+        edges.update({2**k - 1, 2**k, 2**k + 1, 2**k + 2**64, 2**k + 2**64 + 1})
+    for ext in (0, 5, 9):          # the digits of 2^64 + d with one more digit appended
+        for d in range(0, 8):
+            edges.add((2**64 + d) * 10 + ext)
+    def spell(v, base):
+        a = abs(v)
+        t = {10: "%d" % a, 16: "0x%x" % a, 8: "0%o" % a if a else "0", 2: "0b" + bin(a)[2:]}[base]
+        return ("-" if v < 0 else "") + t
+    for v in sorted(edges):
+        for sign in (1, -1):
+            for base in (10, 16, 8, 2):
+                t = spell(sign * v, base)
+                lcmds.append("\t".join(["run", str(len(lcmds)), "max=5", zw.hexq(t)])); lmeta.append((sign * v, t, "alone"))
+                if base == 10:
+                    lcmds.append("\t".join(["run", str(len(lcmds)), "max=5", zw.hexq(t + " 1 add")])); lmeta.append((sign * v + 1, t + " 1 add", "add"))
+        t = spell(v, 10)
+        lcmds.append("\t".join(["run", str(len(lcmds)), "max=5", zw.hexq("[7, 8] elem ?" + t)])); lmeta.append((v, "[7, 8] elem ?" + t, "numword"))
+    lby = {r.get("id"): r for r in zw.run_driver(os.path.join(bdir, "bin", "zwdrv"), lcmds, wd, tag="intlit")}
+    for i, (v, t, kind) in enumerate(lmeta):
+        vd.cov["evaluations"] += 1
+        r = lby.get(str(i)) or {}
+        st = r.get("status")
+        if kind == "numword":
+            # position numbers are small: a huge one is rejected or matches nothing; it must not match position 0 or 1
+            if st == "ok" and r["results"]:
+                vd.observe("literal `%s' as a position assertion matches" % t, {"observed": r})
+            elif st not in ("ok", "parse_error", "runtime_error"):
+                vd.observe("literal `%s': %s" % (t, st), {"observed": r})
+            continue
+        if st == "ok" and len(r["results"]) == 1 and r["results"][0][-1]["t"] == "cst":
+            if int(r["results"][0][-1]["v"]) != v:
+                vd.observe("literal `%s' reads as %s" % (t, r["results"][0][-1]["v"]), {"expected": v, "observed": r})
+            elif not (-2**63 <= v < 2**64):
+                vd.observe("literal `%s' is accepted although it cannot be represented" % t, {"observed": r})
+        elif st in ("parse_error", "runtime_error") or (st == "ok" and not r["results"] and r.get("soft", 0) >= 1):
+            if -2**63 <= v < 2**64 and kind == "alone":
+                vd.observe("literal `%s' is representable but rejected" % t, {"observed": r})
+        else:
+            vd.observe("literal `%s': neither the number nor a reported failure" % t, {"observed": r})
     return vd.finish(rule="(1) TLC: Int.tla (transcription of int.cc) vs exact arithmetic for all operand pairs in both "
                      "representations at W in %s; (2) Apalache: the same module at W=64 over the full range, one "
                      "obligation per operator; (3) boundary lattice (0, +-1, +-2, 2^k, 2^k+-1, INT64_MIN/MAX, "
                      "UINT64_MAX and neighbours, random values) x both representations through int.cc, oracle exact "
                      "arithmetic; (4) sampled recorded calls validated against Int.tla at full width by Apalache; "
-                     "(5) `A B op` queries; non-trivial = exact result exists and an operand exceeds 2^31"
+                     "(5) `A B op` queries; (6) integer literals in four notations around 2^63, 2^64, 10^19, 10^20, 2^65..2^130 and with "
+                     "further digits appended, both signs, alone, under `1 add' and as ?N: the number written or a reported failure; "
+                     "non-trivial = exact result exists and an operand exceeds 2^31"
                      % (list(widths),),
                      extra={"apalache_obligations": apa, "obligations": len(apa),
                             "discharged": sum(1 for v in apa.values() if v["status"] == "ok")})
